@@ -279,7 +279,9 @@ ChInit(i, fault, m) ==
        THEN /\ ch' = [ch EXCEPT ![i].st = "finishing", ![i].msg = "err"]
             /\ failed' = failed \cup {i}
             /\ UNCHANGED mailbox
-       ELSE /\ ch' = [ch EXCEPT ![i].st = "check", ![i].msg = m]
+       ELSE \* `while draw < draws`: with nothing to draw the loop body is never entered
+            /\ ch' = IF Draws = 0 THEN [ch EXCEPT ![i].st = "finishing", ![i].msg = "ok"]
+                     ELSE [ch EXCEPT ![i].st = "check", ![i].msg = m]
             /\ Pop(i, m)
             /\ UNCHANGED failed
     /\ UNCHANGED <<upc, ures, ncmd, nwait, cpc, paused, alive, slot, holder, rec, prog,
